@@ -159,8 +159,14 @@ func (c *Ctx) finish(meta propMeta, verifDir string, seed int, jsonOut bool, wri
 		c.undecided("known_findings", kerr.Error())
 	}
 	// instance-count minimums
+	failedRule := map[string]bool{}
+	for _, o := range c.Obs {
+		if !o.OK {
+			failedRule[o.Rule] = true
+		}
+	}
 	for _, r := range c.Rules {
-		if r.Count < r.Min {
+		if r.Count < r.Min && !failedRule[r.ID] {
 			c.undecided(r.ID, fmt.Sprintf("matched %d instances, fewer than the %d confirmed by hand: the rule may have lost its anchor", r.Count, r.Min))
 		}
 	}
